@@ -165,8 +165,11 @@ def run(ctx):
         "builds": len(results),
         "rule": ("nested loops, no sampling: build (-std=, optimisation, compiler) x algorithm (22 forms of the 17 "
                  "algorithms) x source iterator kind (T*, const T*, int* into another type, vector/deque/list/"
-                 "forward_list iterator, move_iterator of each) x destination kind (T*, non-pointer forward iterator "
-                 "over raw storage) x element type (int, TC4 trivial, TCN trivially copyable with non-trivial default "
+                 "forward_list iterator, move_iterator of each, and the random-access-but-not-contiguous kinds "
+                 "reverse_iterator<T*>, reverse_iterator<vector::iterator>, deque iterator over a range verified to "
+                 "cross a block boundary) x destination kind (T*, non-pointer forward iterator, reverse_iterator<T*> "
+                 "over raw storage; the reverse destination with T*/vector/list and the three non-contiguous sources) "
+                 "x element type (int, TC4 trivial, TCN trivially copyable with non-trivial default "
                  "ctor, TDCA trivially default constructible but not trivial, TR declared relocatable, NTR self-pointer, NTRX "
                  "throwing move, NTRXMO move-only with throwing move (no copying algorithm); E[2], E[2][2] for the array "
                  "forms) x length 0..max_length x fault index k=0..E with E measured on the fault-free run.  One "
